@@ -28,6 +28,8 @@ class Recorder:
         self.root = None          # emit whose synchronous extent we are in
         self.depth = 0
         self.watch = []           # (node, idx, awaitable, dict) polled for completion
+        self.overloaded = False
+        self.event_cap = 40000    # runs that grow beyond this are counted as step_cap, never judged
         from . import loop as _l
         _l.bg_exception_hook[0] = self._bg
 
@@ -64,7 +66,14 @@ class Recorder:
         ev = (len(self.events), lp._vt if lp is not None else 0.0, kind) + args
         self.events.append(ev)
         if self.watch:
-            self._poll(ev[0])
+            if len(self.watch) > 300:
+                # an overloaded pipeline (unbounded pile-up): stop tracking acceptance times
+                self.watch = []
+                self.overloaded = True
+            else:
+                self._poll(ev[0])
+        if ev[0] > self.event_cap and lp is not None:
+            lp.cap_hit = True          # the loop stops at its next iteration boundary
         return ev[0]
 
     def _poll(self, seq):
